@@ -33,6 +33,33 @@ EXTRA = ["<p>", "</p>", "<div>", "</div>", "<table>", "</table>", "<tr>", "<td>"
          "</xmp>", "</iframe>", "</noembed>", "</noframes>", "</plaintext>", "</svg>x", "</mi>", "</desc>", "</foreignObject>"]
 
 
+AUDIT_INPUTS = [(m, None) for m in [
+    "</br><frameset></frameset>", "<b><span><span><span><span><p>x</b>y</p>z", "<b><em><foo><foo><foo><aside></b></em>x",
+    "<b><i><u><s><em><p></b></p></em></s></u>z", "<ul><li><main><li>x", "<ul><li><figcaption><li>x", "<ul><li><hgroup><li>x",
+    "<dl><dd><summary><dt>x", "<b><main>x</b>y", "<a><hgroup>x</a>y", "<i><figcaption>x</i>y", "<span><summary></span>x",
+    "<span><math><mi><i></span>x", "<svg><title><span></title>x", "<svg><desc><span></desc>x", "<math><mi><span></mi>x",
+    "<math><annotation-xml encoding=text/html><span></annotation-xml>x", "<table><button>a<button>b", "<table><tr><button>a<button>b",
+    "<pre></b>\nfoo", "<pre><!doctype html>\nx", "<pre><tr>\nx", "<pre>\0\nx", "<table><pre>\nx", "<table><textarea>\nx</textarea>y",
+    "<p><command>x", "<command>x", "<b id=1><table><b><i><b><b><b></b></b></b></b>x", "<b id=1><svg><desc><b><i><b><b><b></b></b></b></b>x",
+    "<b><div><i k=1><div><i k=2><div><i k=3><div><i k=4><div><i k=5><div><i k=6><div><i k=7><div><u>x</b>w</div>y",
+    "<table><math><mi>a<mglyph></mglyph>b</mi></math></table>", "<table><svg><desc> <!--c-->x</desc></svg></table>",
+    "<table><tr><td></td><svg><title>a<!--c-->", "<table><p><b><p> <!--c--></table>", "<table><li>a<li>b</table>",
+    "<table><p>a<li>b</table>", "<table><dd>a<dt>b</table>", "<table><option>a<option>b</table>", "<table><tr><li>a<li>b</table>",
+    "<frameset>a b</frameset>", "<frameset></frameset>a b", "<frameset></frameset></html>a b", "<table><tr><listing>\n\n</listing></table>",
+    "<pre></span>\nx</pre>", "<table> <!doctype html>y</table>", "<head><command>", "<body><command>x", "x<table>y z</table>",
+    "<svg><desc><b></desc>x", "<math><mi><b></mi>x", "<math><annotation-xml encoding=application/xhtml+XML><b>a</annotation-xml>c",
+    "<svg><desc><span></svg>x", "<span><svg><title>x</span>y", "<b><svg><desc>x</b>y", "<i><math><mtext>x</i>y", "<a><svg><desc><a>x",
+    "<table><caption><svg><caption><desc><b></caption>x", "<table><tr><td><svg><td><desc><b></td>x", "<form><svg><option></form>x",
+    "<form><math><rt></form>x", "<table><math><mi>a<mglyph>", "<table><svg><desc>a<!--c-->b", "<table><svg><desc> <!--c-->",
+    "<table><math><mi>a<!--c-->b</mi>", "<svg><desc><![CDATA[a\0b]]>", "<svg><fedropshadow>",
+    "<svg contentscripttype=a contentstyletype=d externalresourcesrequired=b filterres=c>", "<svg xml:base=e>",
+    "<table><tr><td><pre>\n\nx", "<table><caption><pre>\nx", "<select><pre>\nx", "<table><tr>\0 a", "<table><b> x<tr> y"]] + [
+    ("<button>a<button>b", "table"), ("<select><tr>x", "td"), ("<select><td>x", "th"), ("<table></table><select><tr>x", "td"),
+    ("<select><table><tr><td>x", "td"), ("<frame></frameset>x <noframes>y</noframes>", "frameset"), ("a b<col>", "colgroup"),
+    ("<form><input>", "form"), ("<g/>x<![CDATA[y]]><p>", "svg"), ("<mi/>x", "math"), ("<p><table>", "div"),
+    (" x<b>y", "table"), ("x <b> y<td>z", "tr"), ("<li>a<li>b", "tbody"), ("<select><tr>x", "caption"), ("<select><tr>x", "tr")]
+
+
 def markup(rng):
     r = rng.random()
     if r < 0.35:
@@ -152,7 +179,21 @@ class C01(Plugin):
                 m = "<p>" + "".join("<%s %s>" % (f, a) for a in attrs)
                 for tail in ("</p><p>x", "<div>x</%s>y" % f, "</%s></%s>x<p>y" % (f, f), "<table><td>x</table></%s>" % f):
                     out.append({"markup": m + tail, "fragment": False, "container": "div", "scripting": False, "ns": True})
+        # inputs of the independent WHATWG audits (audit/*.md): deviations repaired since, and the ones still listed
+        for m, frag in AUDIT_INPUTS:
+            out.append({"markup": m, "fragment": frag is not None, "container": frag or "div", "scripting": False, "ns": True})
+            out.append({"markup": "<!doctype html>" + m, "fragment": False, "container": "div", "scripting": True, "ns": False})
+        # ... and the hand-derived WHATWG trees for some of them (an oracle independent of TC)
+        for i, w in enumerate(self.witnesses()):
+            out.append({"markup": w["markup"], "fragment": w["container"] is not None, "container": w["container"] or "div",
+                        "scripting": False, "ns": True, "witness": i})
         return out
+
+    @staticmethod
+    def witnesses():
+        import os
+        with open(os.path.join(os.path.dirname(os.path.abspath(__file__)), "c01_whatwg_witnesses.json"), encoding="utf-8") as f:
+            return json.load(f)["witnesses"]
 
     def encode(self, case):
         m = case["markup"].replace("\r\n", "\n").replace("\r", "\n")
@@ -193,6 +234,12 @@ class C01(Plugin):
                 continue
             if got is not None and got != o:
                 todo.append(i)
+            if "witness" in c and got is not None:
+                w = self.witnesses()[c["witness"]]
+                if self.show(got) != w["expected"]:
+                    v.append((c, "whatwg-witness:" + (w["finding"] or "unlisted"),
+                              "hand-derived WHATWG tree (%s) differs\nimplementation: %s\nstandard:       %s"
+                              % (w["source"], self.show(got), w["expected"]), got))
         # which deviation point explains the difference?  flip the switches one at a time
         if todo:
             singles = {}
@@ -240,6 +287,8 @@ class C01(Plugin):
     def classify(self, cls, case, detail):
         if cls == "template-not-supported":
             return "C01-template-not-supported"
+        if cls.startswith("whatwg-witness:"):
+            return None if cls.endswith(":unlisted") else cls.split(":", 1)[1]
         if cls.startswith("deviation:") and cls != "deviation:combined":
             return "C01-" + cls.split(":", 1)[1]
         return None
@@ -250,8 +299,12 @@ class C01(Plugin):
                 "C01-isindex-expanded": w("<isindex prompt=x>"),
                 "C01-foreign-end-br-p-no-breakout": w("<svg></p>x</svg>"),
                 "C01-name-only-tests-ignore-namespace":
-                    w("<math><button><object><annotation-xml encoding=text/html><rt></math><title>x"),
-                "C01-minidom-attribute-collision": w("<br href=u xlink:href=v>")}
+                    w("<svg><title><span></title>x"),
+                "C01-minidom-attribute-collision": w("<br href=u xlink:href=v>"),
+                "C01-pre-newline-not-next-token": w("<pre></b>\nfoo", witness=44),
+                "C01-command-void-head-element": w("<p><command>x", witness=47),
+                "C01-fragment-form-pointer": w("<form><input>", fragment=True, container="form", witness=50),
+                "C01-cdata-nul-at-integration-point": w("<svg><desc><![CDATA[a\0b]]>", witness=55)}
 
     def nontrivial_key(self, case, out):
         return json.dumps(case, sort_keys=True) if out and out[0] == 0 and len(json.dumps(out)) > 80 else None
